@@ -18,6 +18,7 @@ const edPkg = "common/ed25519"
 func c16(c *eng.Ctx, r *eng.Report) {
 	r.Explain = "Structural necessary conditions of VRF completeness under header transport and of a deterministic quality number, decided on the SSA of common/ed25519/vrf.go, consensus/vrf and consensus/logical/vrf_with_stake.go: " +
 		"R16.1 on the verification and qualification paths a proof is left-padded to 80 bytes before it is decoded or its lottery output is read, and both padding helpers right-align the shortened proof (`copy(buf[80-len(pi):], pi)`) and only skip proofs that are already full length; " +
+		"R16.10 nothing between the block header and the padding helper judges the proof by its length: vrf.VRFVerify, vrf.VRFProof2Hash and logical.verifyBlockVRF have no branch on len() of the prove (a proof that lost leading zero bytes in transport is shorter than 80 bytes until ECVRFVerify pads it); " +
 		"R16.2/R16.5 neither proof generation nor verification consults randomness, the clock, a cache or any package-level mutable state, so proving is deterministic and the verdict is a function of (key, proof, message) — and of the header's height, never of the node's own chain position (no common.GetBlockHeight()/IsProposalNNN() in the cone); " +
 		"R16.3 ECVRFVerify returns true only as the comparison of the recomputed challenge with the proof's c, after the proof decoded without error, and the message and key passed to hashToCurve are the function's own arguments; " +
 		"R16.4 the quality number is floor(ratio/step)+1 with the stake ratio clamped to 1, and qualification is `valueRatio < stakeRatio`; " +
@@ -28,6 +29,7 @@ func c16(c *eng.Ctx, r *eng.Report) {
 	r.Assume = []string{"edwards25519 group arithmetic and SHA-512 are correct"}
 	c16Padding(c, r)
 	c16Purity(c, r)
+	c16NoLengthGate(c, r)
 	c16Verify(c, r)
 	c16Qn(c, r)
 	c16Verbatim(c, r)
@@ -537,5 +539,37 @@ func c16Qn(c *eng.Ctx, r *eng.Report) {
 			}
 		}
 		r.Check(okV && okP && okQ, rule, "verifyBlockVRF:accept-edge", c.Pos(vb.Pos()), "accepts only a verified, qualified proof whose qn matches the header's TotalQN", fmt.Sprintf("verifyBlockVRF accept edge changed (VRFVerify ok=%v, validateProve ok=%v, TotalQN == qn+pre=%v)", okV, okP, okQ))
+	}
+}
+
+// c16NoLengthGate: the header carries the proof as a big integer.
+func c16NoLengthGate(c *eng.Ctx, r *eng.Report) {
+	const rule = "R16.10"
+	r.Min(rule, 2)
+	for _, e := range [][2]string{{"consensus/vrf", "VRFVerify"}, {logicalPkg, "verifyBlockVRF"}} {
+		fn := c.Func(e[0], e[1])
+		if !r.Anchor(fn != nil, rule, e[0]+"."+e[1]) {
+			continue
+		}
+		bad := ""
+		for _, b := range fn.Blocks {
+			iff, ok := b.Instrs[len(b.Instrs)-1].(*ssa.If)
+			if !ok {
+				continue
+			}
+			for _, cd := range eng.Conjuncts(iff.Cond, true, iff) {
+				m, isM := cd.Cmp()
+				if !isM {
+					continue
+				}
+				for _, v := range []ssa.Value{m.X, m.Y} {
+					d := eng.Desc(v)
+					if strings.HasPrefix(d, "builtin:len(") && (strings.Contains(d, "pi") || strings.Contains(strings.ToLower(d), "prove") || strings.Contains(strings.ToLower(d), "proof")) {
+						bad = d + " (" + c.Pos(iff.Pos()) + ")"
+					}
+				}
+			}
+		}
+		r.Check(bad == "", rule, "no-length-gate:"+e[1], c.Pos(fn.Pos()), "no branch on the length of the prove", e[1]+" branches on "+bad+" before the proof reaches the padding in ECVRFVerify: the header stores the proof as a big integer, so one honest proof in 256 arrives with 79 bytes (its leading zero byte gone) and is rejected although it would verify after padding")
 	}
 }
